@@ -169,6 +169,14 @@ func runC12(r *simrt.Run) {
 			d = t.Uint64()
 		}
 		tmpl.FusedPlasma, tmpl.Difficulty = fused, d
+		if t.Choose(3) == 0 {
+			// the informational accounting fields arrive pre-filled (they are outside hash and signature)
+			tmpl.BasePlasma = uint64(1 + t.Choose(int(base)+1))
+			if t.Bool() {
+				tmpl.TotalPlasma = uint64(t.Choose(int(golden.MaxPlasmaPerBlock) + 1))
+			}
+			r.Probe("attempt-with-prefilled-plasma-fields")
+		}
 		if d != 0 {
 			if d <= 200000 && t.Choose(4) != 0 {
 				tmpl.Nonce.Data, validNonce = searchNonce(t, u.Address, tmpl.PreviousHash, d, int(8*d))
